@@ -212,7 +212,7 @@ func genHistory(maxOps int, withCrash, allowTrick bool) func(t *rapid.T) Scenari
 		n := rapid.IntRange(1, maxOps).Draw(t, "nops")
 		for i := 0; i < n; i++ {
 			if rapid.IntRange(0, 7).Draw(t, "reopen") == 0 {
-				sc.Ops = append(sc.Ops, Op{Kind: "reopen", CrashK: -1})
+				sc.Ops = append(sc.Ops, Op{Kind: "reopen", CrashK: -1, Blind: rapid.Bool().Draw(t, "blind")})
 				continue
 			}
 			op := genWrite(t, sc.Base, allowTrick)
@@ -338,6 +338,10 @@ func runHistory(sc Scenario, be backend) (v world.Verdict) {
 			s.labels["reopen"] = true
 			if len(s.kinds) >= 3 {
 				s.ntEvent = true
+			}
+			if op.Blind {
+				s.labels["reopen-blind"] = true
+				continue
 			}
 			if p := sweep(ctx, st, m, u); p != nil {
 				p.sig = "reopen/" + p.sig
